@@ -155,14 +155,14 @@ Inv_C18 == C18_PopBound(n, pops)
 Inv_C13 == phase # "rank" => C13_Ranks(n, rank, ue)
 Inv_Twin == phase = "done" => built = Built(n, ue, reads, writes)
 Inv_C11 == phase = "done" =>
-             LET CC == Closure(n, BE) IN
-             /\ \A a \in 1..n : <<a, a>> \notin CC
+             LET CC == Reach(n, BE) IN
+             /\ \A a \in 1..n : ~HasPath(CC, a, a)
              /\ C11_KeepsUserEdges(built, ue)
              /\ C11_DataOnlyBetweenConflicting(built, reads, writes)
              /\ C01_ConflictOrdered(n, reads, writes, CC)
              /\ C06_DataOnlyForConflict(built, ue, reads, writes)
 Inv_C12 == phase = "done" =>
-             /\ C12_Direction(n, reads, writes, Closure(n, UE), Closure(n, BE), Ranks(n, ue))
+             /\ C12_Direction(n, reads, writes, Reach(n, UE), Reach(n, BE), Ranks(n, ue))
              /\ C12_NoRedundantData(n, built)
 (* every edge, user or added, goes forward in the rank order: the reason no update_edge can fail *)
 Inv_Forward == phase \in {"aug", "done"} =>
